@@ -100,7 +100,17 @@ Record env := {
   v_sp : option key;                       (* None: no storage registered *)
   v_data : option store;
   v_cache : option store;
-  v_remote : option store }.
+  v_remote : option store;
+  v_hidden : list oid;                     (* directory objects currently unreadable in every storage *)
+  v_swallow : bool }.                      (* index.onerror swallows DataIndexDirError (default: raises) *)
+
+Definition with_hidden (E : env) (l : list oid) : env :=
+  {| v_sp := v_sp E; v_data := v_data E; v_cache := v_cache E; v_remote := v_remote E;
+     v_hidden := l; v_swallow := v_swallow E |}.
+Definition hide (h : oid) (E : env) : env := with_hidden E (h :: v_hidden E).
+Definition restore (h : oid) (E : env) : env :=
+  with_hidden E (filter (fun h' => negb (list_N_eqb h h')) (v_hidden E)).
+Definition unhide (E : env) : env := with_hidden E [].
 
 Definition idx := list (key * entry).
 
@@ -164,7 +174,8 @@ Definition roles_read (E : env) : list (option store) := [v_cache E; v_remote E;
    one of the storages; a storage where it fails (object absent or unparsable) is skipped *)
 Definition listing_of (E : env) (e : entry) : option (list lrow) :=
   match e_hash e with
-  | Some h => if hi_isdir (Some h) then first_some (fun st => assoc (s_dirs st) h) (roles_load E) else None
+  | Some h => if hi_isdir (Some h) && negb (existsb (list_N_eqb h) (v_hidden E))
+              then first_some (fun st => assoc (s_dirs st) h) (roles_load E) else None
   | None => None
   end.
 (* _get_fs_path: the first storage whose file system has the object *)
@@ -233,9 +244,13 @@ Definition lp (i : idx) (k : key) : option key :=
                else best) i None.
 Definition s_lp (i : idx) (k : key) : sel := match lp i k with Some d => s_key d | None => s_none end.
 
+(* DataIndex._load: a failing load goes to index.onerror; the default raises (the operation fails,
+   DataIndexDirError), a swallowing one returns and the entry simply stays unloaded *)
+Definition blocked (E : env) (s : sel) (i : idx) : bool := negb (v_swallow E) && fails E s i.
+
 (* the common shape: load the selection (or fail), then answer from the new state *)
 Definition guarded {A} (E : env) (s : sel) (i : idx) (q : idx -> res A) : idx * res A :=
-  if fails E s i then (i, Err E_DIRERR) else let i' := load_where E s i in (i', q i').
+  if blocked E s i then (i, Err E_DIRERR) else let i' := load_where E s i in (i', q i').
 
 (* trie[key]: Ok None = ShortKeyError (a node without a value) *)
 Definition get_q (k : key) (i : idx) : res (option entry) :=
@@ -282,7 +297,7 @@ Definition items_q (p : key) (sh : bool) (i : idx) : res (list (key * option ent
           (usort key_ltb (filter (fun k => is_prefix p k && (negb sh || top i p k)) (map fst i)))).
 Definition items_step (E : env) (i : idx) (p : key) (sh : bool) : idx * res (list (key * option entry)) :=
   let s1 := match p with [] => s_none | _ => s_lp i p end in
-  if fails E s1 i then (i, Err E_DIRERR) else
+  if blocked E s1 i then (i, Err E_DIRERR) else
   let i1 := load_where E s1 i in
   if negb (is_node i1 p) then (i1, Err E_KEY) else
   guarded E (items_sel i1 p sh) i1 (items_q p sh).
@@ -435,7 +450,8 @@ Inductive op :=
 | OGet (k : key) | OItems (p : key) (shallow : bool) | OLs (k : key) | OInfo (k : key)
 | ODiff (other : idx)
 | OFsLs (p : list N) | OFsInfo (p : list N) | OFsRead (p : list N)
-| OViewItems (f : key -> bool) | OViewLs (f : key -> bool) (k : key).
+| OViewItems (f : key -> bool) | OViewLs (f : key -> bool) (k : key)
+| OHide (h : oid) | ORestore (h : oid).    (* the environment changes between two accesses *)
 
 Definition enc_key (k : key) : val := VL (map VB k).
 Definition enc_optN (o : option N) : val := match o with Some n => VL [VN n] | None => VL [] end.
@@ -487,6 +503,7 @@ Definition step (E : env) (i : idx) (o : op) : idx * val :=
   | OFsRead p => let '(i', r) := fs_read_step E i p in (i', enc_res VB r)
   | OViewItems f => let '(i', r) := view_items_step E i f in (i', enc_items r)
   | OViewLs f k => let '(i', r) := view_ls_step E i f k in (i', enc_ls r)
+  | OHide _ | ORestore _ => (i, VL [])
   end.
 
 Fixpoint run (E : env) (i : idx) (ops : list op) : idx * list val :=
@@ -495,6 +512,17 @@ Fixpoint run (E : env) (i : idx) (ops : list op) : idx * list val :=
   | o :: r => let '(i1, a) := step E i o in let '(i2, l) := run E i1 r in (i2, a :: l)
   end.
 Definition answers (E : env) (i : idx) (ops : list op) : list val := snd (run E i ops).
+
+(* runs in which the environment changes: OHide / ORestore act on the environment before the step *)
+Definition env_step (E : env) (o : op) : env :=
+  match o with OHide h => hide h E | ORestore h => restore h E | _ => E end.
+Fixpoint run_env (E : env) (i : idx) (ops : list op) : env * idx * list val :=
+  match ops with
+  | [] => (E, i, [])
+  | o :: r => let E1 := env_step E o in
+              let '(i1, a) := step E1 i o in
+              let '(E2, i2, l) := run_env E1 i1 r in (E2, i2, a :: l)
+  end.
 
 (* ---- the explicit construction and the shared projection --------------------------------------------- *)
 (* the index "in which that directory's files are listed explicitly": the directory entry without
@@ -557,7 +585,7 @@ Definition Rw (k : key) (h : oid) (sz : option N) (x : bool) : lrow :=
 
 Record case := { c_env : env; c_idx : idx; c_ops : list op; c_proj : bool }.
 Definition run_case (c : case) : val :=
-  VL (VL (answers (c_env c) (c_idx c) (c_ops c)) ::
+  VL (VL (snd (run_env (c_env c) (c_idx c) (c_ops c))) ::
       if c_proj c then [enc_bool (hypsb (c_env c) (c_idx c));
                         enc_project (project (load_all (c_env c) (c_idx c)));
                         enc_project (project (explicit (c_env c) (c_idx c)))] else []).
